@@ -23,7 +23,39 @@ import re
 import z3
 
 from .histglue import Agg, Ref, Sym, Unsupported, _split_call, bv
-from .mirparse import split_args
+
+
+def split_args(s):
+    """split at top-level commas; string / byte-string literals are opaque"""
+    out, depth, cur, q = [], 0, "", False
+    i = 0
+    while i < len(s):
+        ch = s[i]
+        if q:
+            cur += ch
+            if ch == "\\" and i + 1 < len(s):
+                cur += s[i + 1]
+                i += 1
+            elif ch == '"':
+                q = False
+        elif ch == '"':
+            q = True
+            cur += ch
+        elif ch in "(<[{":
+            depth += 1
+            cur += ch
+        elif ch in ")>]}":
+            depth -= 1
+            cur += ch
+        elif ch == "," and depth == 0:
+            out.append(cur.strip())
+            cur = ""
+        else:
+            cur += ch
+        i += 1
+    if cur.strip():
+        out.append(cur.strip())
+    return out
 
 SKIP = ("StorageLive", "StorageDead", "nop", "FakeRead", "PlaceMention", "Retag", "Coverage", "AscribeUserType", "ConstEvalCounter")
 
@@ -103,6 +135,7 @@ class Fut:
 class Path:
     def __init__(self):
         self.events = []      # (name, args, okvar-or-None, result)
+        self.visits = {}
         self.cond = z3.BoolVal(True)
         self.ret = None
         self.panic = None
@@ -138,6 +171,8 @@ class CoWalker:
         self.nevent = 0
         self.steps = 0
         self.max_steps = max_steps
+        self.loop_bound = 2
+        self.pruned = 0
         self.named = {}
 
     # ---- symbols --------------------------------------------------------------------------------
@@ -299,6 +334,9 @@ class CoWalker:
         m = re.match(r"^([\w:]+(?:<.*>)?) \{(.*)\}$", rv)
         if m:
             return Agg("Struct:" + m.group(1).split("::")[-1], {i: self.operand(st, x.split(": ", 1)[1]) for i, x in enumerate(split_args(m.group(2))) if ": " in x})
+        m = re.match(r"^([A-Z]\w*)\((.*)\)$", rv)
+        if m:
+            return Agg("Ctor:" + m.group(1), {i: self.operand(st, x) for i, x in enumerate(split_args(m.group(2)))})
         m = re.match(r"^([\w:]+)::(\w+)$", rv)
         if m and not re.match(r"^_\d+$", rv):
             return Sym(m.group(1).split("::")[-1] + "::" + m.group(2))
@@ -327,6 +365,7 @@ class CoWalker:
     def fork(self, path):
         np = Path()
         np.events = list(path.events)
+        np.visits = dict(path.visits)
         np.cond = path.cond
         return np
 
@@ -346,6 +385,10 @@ class CoWalker:
             if self.steps > self.max_steps:
                 raise Unsupported("walk too long (a loop that does not terminate under the abstraction)")
             block = self.func.blocks[bb]
+            path.visits[bb] = path.visits.get(bb, 0) + 1
+            if path.visits[bb] > self.loop_bound + 1:
+                self.pruned += 1      # bounded unrolling: this path iterates a loop more often than the bound
+                return
             st = dict(st)
             for s in block.stmts:
                 if s.startswith(SKIP):
@@ -524,6 +567,8 @@ class CoWalker:
             return Sym("formatted")
         if re.match(r"^(panicking::)?(panic|panic_fmt|panic_bounds_check|begin_panic|assert_failed)", name.split("::")[-1]) or "panicking::" in c:
             return DIVERGE
+        if re.match(r"^<(log::)?Level as (cmp::)?PartialOrd<(log::)?LevelFilter>>::(le|lt|ge|gt)$", c) or name.endswith("log::max_level") or name == "max_level":
+            return False if dty.strip() == "bool" else Sym("log-level")     # logging is switched off: it has no effect on the state
         dargs = [self.deep(st, a) for a in args]
         # a call that returns a future only builds it
         if re.match(r"^\{async (fn body|block)", dty.strip()) or "dyn Future" in dty or "dyn std::future::Future" in dty or "impl Future" in dty:
